@@ -113,3 +113,14 @@ package hash_set
 //@   ensures[wf] wfHS(set)
 //@   ensures[add_beyond_capacity_is_an_error_that_changes_nothing] old(set.np.length) >= old(set.np.capacity) ==> result0 != nil && set.np.length == old(set.np.length)
 //@   ensures[size_grows_by_at_most_one_and_only_on_success] set.np.length == old(set.np.length) || (result0 == nil && set.np.length == old(set.np.length) + 1)
+
+//@ spec hsHas16(set *HashSet, v int) bool := abstract
+
+//@ func (*HashSet).Exist
+//@   props C19 C20
+//@   nopanic
+//@   requires wfHS(set)
+//@   frame hashFunc pure
+//@   note the user-supplied hash function is assumed not to write the set
+//@   modifies nothing
+//@   assumes[names_membership_of_16_byte_keys_by_their_value] len(key) == 16 ==> result0 == hsHas16(set, be128(key))
